@@ -66,7 +66,7 @@ def _names_hint(hint_repr, msg):
     # equal unions have three spellings (typing.Optional[X], typing.Union[X, None], X | None) and beartype may print the
     # equal one it saw first: the words that only spell the union are not compared
     if 'Optional[' in hint_repr or 'Union[' in hint_repr or ' | ' in hint_repr:
-        for word in ('typing', 'Optional', 'Union', 'None'):
+        for word in ('typing', 'Optional', 'Union', 'None', 'typing.Optional', 'typing.Union'):
             need.pop(word, None)
         return not (need - have)
     return False
